@@ -183,6 +183,10 @@ uint64_t gen_sample_bits(int dtype, int g, uint64_t gs, int64_t abs_id, uint64_t
             r = sel == 0 ? 0 : sel == 1 ? mask : sel == 2 ? mix(gs, run + 99) : mix(gs ^ (uint64_t) abs_id, local);
             break;
         }
+        case G_HDRLIKE: {     // byte stream with period 32, phase from the seed (multiples of 8 keep it aligned like chunk headers)
+            uint64_t bit0 = local * (uint64_t) bits + 64 * (gs & 3); r = 0;
+            for (int k = 0; k < bits; ++k) { uint64_t byte = ((bit0 + (uint64_t) k) >> 3) & 31; if (byte < 4 || byte >= 28) r |= 1ULL << k; }
+            break; }
         case G_OFFSET: r = bits >= 16 ? (mask >> 2) - (gs & 0xff) + (mix(gs, local) % 17) : mix(gs, local); if (bits == 64) r = (1ULL << 52) + (mix(gs, local) % 17); break;
         default: r = mix(gs, local); break;
     }
